@@ -31,3 +31,10 @@ Theorem C04_own_line_check_only_refuted :
   suppressed ignore_actual (pipeline_of "method_property" "py") (render w_method_property) 1 "method-property.should-be-property" = true
   /\ spec false w_method_property 1 "method-property.should-be-property" = false.
 Proof. vm_compute. split; reflexivity. Qed.
+
+(* dot-less rule ids (cqs, file-placement, ... are reported without a ".suffix"): the documented `prefix.*` spelling does not name
+   them, because the wildcard is implemented as "the id starts with `prefix.`" *)
+Theorem C04_dotless_wildcard_refuted :
+  existsb (fun r => negb (containsb "." r)) registry_rule_ids = true
+  /\ forallb (fun r => containsb "." r || (rule_matches r r && negb (rule_matches r (r ++ ".*")))) registry_rule_ids = true.
+Proof. vm_compute. split; reflexivity. Qed.
